@@ -274,7 +274,10 @@ def _children(ck: Checker, rule: str = "C17.children") -> None:
                 a = [norm(x) for x in it.args]
                 full = (a == ["1", f"len({ik})"] and up in (iv, f"-{iv}")) or (a == [f"len({ik}) - 1", "0", "-1"] and up == iv)
                 if full:
-                    rr = g.reach([d for lab, d in h.succ if lab == "T"], skip_node=lambda x, n=n: x.id == n.id, skip_edge=lambda p, l, q: l == "exc")
+                    # a key shorter than two components has no proper prefix: skipping it loses nothing
+                    short = (f"len({ik}) >= 2", f"len({ik}) > 1")
+                    rr = g.reach([d for lab, d in h.succ if lab == "T"], skip_node=lambda x, n=n: x.id == n.id,
+                                 skip_edge=lambda p, l, q: l == "exc" or (p.kind == "test" and l == "F" and norm(p.ast) in short))
                     ok = ok or h.id not in rr
                 else:
                     why = f"bulk prefix collection {norm(c)} does not enumerate every proper prefix {ik}[:1] .. {ik}[:-1]"
